@@ -28,7 +28,10 @@ int main()
       auto* map = lex.make_mapping(greg, Mapping_level{ size_t(m == 2 ? 1 : m + 1) });
       for (int i = 0; i < 16; ++i) {
          std::u8string s = u8"p"; s += char8_t('a' + i);
-         params.push_back(map->param(lex.get_identifier(s), lex.int_type()));
+         auto* prm = map->param(lex.get_identifier(s), lex.int_type());
+         // every third parameter has a default argument (a literal of its own): a default is not a binding
+         if (i % 3 == 1) prm->init = lex.make_literal(lex.int_type(), u8"1024");
+         params.push_back(prm);
       }
    }
    std::vector<const ipr::Expr*> values;
